@@ -312,3 +312,7 @@ Definition keys_sub (a b : store) : bool := forallb (fun kv => stored b (fst kv)
 
 (* same keys, same values *)
 Definition store_eqb (a b : store) : bool := store_sub a b && keys_sub b a.
+
+(* one value per identifier in a log (hypothesis of the reload-loop theorem, checked on every case) *)
+Definition functionalb (L : list (tid * val)) : bool :=
+  forallb (fun kv => match lookup L (fst kv) with Some w => val_eqb (snd kv) w | None => false end) L.
